@@ -27,3 +27,25 @@ Theorem C06_nothing_discarded :
   forall limit tau errdelay its, length (run limit tau errdelay its) = length its.
 Proof. intros. apply schedule_length. Qed.
 Print Assumptions C06_nothing_discarded.
+
+(* ---- Multi::close() over k listeners, each with its own executor (model: Exec/MExec.v, compared with the real Multi field by field) ---- *)
+From RM Require Import MExec.
+
+(* sequential executors: when Multi::close() returns, EVERY listener has fully processed EVERY accepted event - for every number of
+   listeners, every workload (listener i is i+1 times slower) and every instant at which close is called *)
+Theorem C06_multi_close_waits_for_every_listener :
+  forall k durs t_close ds, In ds (mruns k 1 durs) -> done_at ds (m_return 1 (mruns k 1 durs) t_close) = length durs.
+Proof. exact multi_close_waits_for_every_listener. Qed.
+Print Assumptions C06_multi_close_waits_for_every_listener.
+
+Theorem C06_multi_has_k_listeners_and_discards_nothing :
+  forall k limit durs, length (mruns k limit durs) = k /\ forall ds, In ds (mruns k limit durs) -> length ds = length durs.
+Proof. intros. split; [apply mruns_length|apply multi_nothing_discarded]. Qed.
+Print Assumptions C06_multi_has_k_listeners_and_discards_nothing.
+
+(* F7 at the Multi level: limit 4, two listeners, two events of 200 ms, close at once returns with nothing processed by anyone *)
+Theorem C06_multi_refuted_with_concurrency :
+  let dss := mruns 2 4 [200; 200] in
+  m_return 4 dss 0 = 0 /\ map (fun ds => done_at ds (m_return 4 dss 0)) dss = [0%nat; 0%nat].
+Proof. exact multi_close_refuted_with_concurrency. Qed.
+Print Assumptions C06_multi_refuted_with_concurrency.
